@@ -94,6 +94,47 @@ theorem C20_optin_min_full (s s' : State) (d : Bool) (op : String) (avs : Addr) 
   obtain ⟨_, a, usd, h1, h2, h3, _, _⟩ := C20_optin_requires s s' d op avs u h
   exact ⟨a, usd, h1, h2, h3⟩
 
+/-- The minimum clause on the exact values: an accepted opt-in means that the operator's self-delegated
+USD value, as the 18-decimal LegacyDec it is, is not below the AVS's minimum as a LegacyDec
+(`SelfUSDValue.LT(min)` is false, `SelfUSDValue.GTE(min)` is true) — no rounding of either side: a
+value of m − 10^-18 is refused. -/
+theorem C20_optin_exact_min (s s' : State) (d : Bool) (op : String) (avs : Addr) (u : Option Int)
+    (h : step s (.opt d 1 op avs u) = (s', "ok")) :
+    ∃ a usd, KV.find? s.avss avs = some a ∧ u = some usd ∧
+      selfDelegationTooLow ⟨usd⟩ (minSelfDec a.minSelf) = false ∧
+      Dec.gte ⟨usd⟩ (minSelfDec a.minSelf) = true ∧ ¬ usd ≤ (a.minSelf : Int) * PREC - 1 := by
+  obtain ⟨a, usd, h1, h2, h3⟩ := C20_optin_min_full s s' d op avs u h
+  refine ⟨a, usd, h1, h2, ?_, ?_, by omega⟩
+  · cases hb : selfDelegationTooLow ⟨usd⟩ (minSelfDec a.minSelf) with
+    | false => rfl
+    | true => exact absurd ((selfDelegationTooLow_min usd a.minSelf).1 hb) (by omega)
+  · unfold Dec.gte minSelfDec Dec.ofInt
+    exact decide_eq_true h3
+
+/-- The guard is the exact order of the raw 18-decimal integers, for all values. -/
+theorem C20_optin_guard_is_exact_order (self min : Dec) :
+    selfDelegationTooLow self min = true ↔ self.raw < min.raw := selfDelegationTooLow_iff self min
+
+/-- Converse of the clause: a registered operator that is not opted in to a registered AVS and whose
+self-delegated value is at least the minimum IS opted in (by either entry point). -/
+theorem C20_optin_accepts_eligible (s : State) (d : Bool) (op : String) (avs : Addr) (a : AVS) (usd : Int)
+    (hh : s.halted = false) (h1 : op ∈ s.operators) (h2 : KV.find? s.avss avs = some a)
+    (h3 : isOptedIn s op avs = false) (h4 : (a.minSelf : Int) * PREC ≤ usd) :
+    step s (.opt d 1 op avs (some usd)) = ({ s with opted := KV.set s.opted (op, avs) true }, "ok") := by
+  have c4 : selfDelegationTooLow ⟨usd⟩ (minSelfDec a.minSelf) = false := by
+    cases hb : selfDelegationTooLow ⟨usd⟩ (minSelfDec a.minSelf) with
+    | false => rfl
+    | true => exact absurd ((selfDelegationTooLow_min usd a.minSelf).1 hb) (by omega)
+  have hhas : KV.has s.avss avs = true := by simp [KV.has, h2]
+  cases d <;> simp [step, hh, optAction, optInCore, h1, h2, h3, c4, hhas]
+
+/-- regression shape (rounded comparison): comparing `RoundInt` of both sides instead of the values
+accepts a self-delegated value of 2.6 USD against a minimum of 3 USD — the model's guard refuses it. -/
+theorem C20_regress_rounded_min_compare :
+    let self : Dec := ⟨2600000000000000000⟩
+    decide (Dec.roundInt self < Dec.roundInt (minSelfDec 3)) = false ∧
+    selfDelegationTooLow self (minSelfDec 3) = true := by decide
+
 /-- pre-fix shape of GetAVSMinimumSelfDelegation: `LegacyNewDec(int64(min))` -/
 def minSelfRawPre (n : Nat) : Int := toI64 n * PREC
 
@@ -436,6 +477,15 @@ private def subB : Submit :=
     respHash := "", respTaskId := none, blsOk := false, digest := "" }
 example : (submitOne (run init (okOps.take 6)) subB chTask 4).2 = "ok" := by decide
 example : (submitOne (run init (okOps.take 6)) subB chTask 5).2 = "ErrSubmitTooLateError" := by decide
+-- opt-in boundary on the exact values: minimum 5 USD; exactly 5 is accepted, 5 − 10^-18 and 4.6 (which rounds
+-- to 5) are refused, 5 + 10^-18 is accepted; the hypotheses of C20_optin_exact_min / C20_optin_accepts_eligible
+-- are met by the first three operations of okOps
+example : (step (run init (okOps.take 3)) (.opt true 1 "o" "A" (some (5 * PREC)))).2 = "ok" ∧
+    (step (run init (okOps.take 3)) (.opt true 1 "o" "A" (some (5 * PREC - 1)))).2 = "ErrMinDelegationNotMet" ∧
+    (step (run init (okOps.take 3)) (.opt false 1 "o" "A" (some 4600000000000000000))).2 = "ErrMinDelegationNotMet" ∧
+    (step (run init (okOps.take 3)) (.opt false 1 "o" "A" (some (5 * PREC + 1)))).2 = "ok" ∧
+    (run init (okOps.take 3)).halted = false ∧ "o" ∈ (run init (okOps.take 3)).operators ∧
+    isOptedIn (run init (okOps.take 3)) "o" "A" = false := by decide
 -- period lengths of zero: the statistical period (start+0, start+0+0] is empty, phase two is never admissible
 example : ∀ cur : Int, phase2TooSoon cur 3 0 = true ∨ phase2TooLate cur 3 0 0 = true := by
   intro cur; simp only [phase2TooSoon, phase2TooLate, decide_eq_true_eq]; omega
